@@ -34,6 +34,7 @@ def cfg : Cfg :=
     procFactor := Gen.C07.procFactor
     procDigits := Gen.C07.procDigits
     procScaleDelta := Gen.C07.procScaleDelta
+    storeBound := Gen.C07.lastStoreBound
     shapeOk := Gen.C07.shapeOk
       && (fldsOf Gen.C07.baseFields).isSome && (optOf Gen.C07.optFields).isSome
       && (fldsOf Gen.C07.totSub).isSome && (fldsOf Gen.C07.busySubReq).isSome
